@@ -61,7 +61,7 @@ def make_vocab(tt):
     toks.append(dict(kind="T", tt=tt["COMMA"], lit=";"))       # equal to the previous one by tokenEqual
     toks.append(dict(kind="T", tt=tt["NEGATE"], lit="-"))
     specs = ["Z", "T", "K", "C", "B", "W", "L(Z)", "L(T)", "SPunkt#1", "SPunkt#2", "SPunkt#3", "SKreis#4", "L(SPunkt#1)", "L(SPunkt#2)",
-             "AZahlAlias#5(Z)", "DPunkt#6(Z)", "DPunkt#7(T)", "APunkt#8(SPunkt#2)", "V", "L(AZahlAlias#5(Z))"]
+             "AZahlAlias#5(Z)", "AHausnummer#9(Z)", "AXylophon#10(C)", "AAnfang#11(T)", "DPunkt#6(Z)", "DPunkt#7(T)", "APunkt#8(SPunkt#2)", "V", "L(AZahlAlias#5(Z))"]
     for s in specs:
         for ref in (0, 1):
             toks.append(dict(kind="P", ref=ref, spec=s))
@@ -408,6 +408,7 @@ def main():
     kinds = {"D": 0, "L": 0, "S": 0, "Y": 0}
     rejected = 0
     model_mismatch = None
+    n_bad_hist = 0
     for idx, h in enumerate(hists):
         ops_total += len(h)
         for op in h:
@@ -417,6 +418,9 @@ def main():
         if any(isinstance(s, str) and s.startswith("R") for s in spec) or len({tuple(op[2]) for op in h if op[0] == "D"}) >= 2:
             ck.nontrivial(("h", tuple(map(str, h))))
         if not conforms(spec, impl[idx]):
+            n_bad_hist += 1
+            if n_bad_hist > 4:      # enough replays; keep counting only
+                continue
             def bad(hh):
                 o = split_hist(run_tool(triex, lines_impl + hist_lines(hh)))[0]
                 return not conforms(spec_run(toks, hh), o)
@@ -435,8 +439,8 @@ def main():
         ck.broken_obligation("correspondence trie model vs alias_trie fails on history %s: impl %s model %s" % (hist_lines(h), i_o, m_o), "")
     ck.cov.update(dict(
         histories=len(hists), exhaustive_permutation_histories=n_exh, operations=ops_total, op_kinds=kinds, rejected_declarations=rejected,
-        vocabulary=len(toks), predicate_pairs=n * n, exhaustive=False,
-        rule="histories of Declare/Lookup/Search/Copy over %d tokens (placeholders of 20 types x value/Referenz incl. three Kombinationen printed 'Punkt', aliases, definitions, lists); "
+        vocabulary=len(toks), predicate_pairs=n * n, exhaustive=False, histories_contradicting_spec=n_bad_hist,
+        rule="histories of Declare/Lookup/Search/Copy over %d tokens (placeholders of 23 types x value/Referenz incl. three Kombinationen printed 'Punkt', aliases, definitions, lists); "
              "non-trivial = at least two distinct declared keys or a rejected duplicate; distinct by operation sequence; all insertion orders of every %d-subset of the print-alike pool enumerated" % (len(toks), 4 if ck.quick else 5)))
     parser_leg(ck, b)
     ck.sample(dict(history=hist_lines(hists[0]), implementation=impl[0], model=mod[0]))
